@@ -34,11 +34,13 @@ class PortMonitor:
         while True:
             yield self.env.timeout(self.dist())
 
+            # port.byte_size already contains the packet in transmission (it is subtracted
+            # when the packet leaves); port.store.items does not contain it.
             if self.pkt_in_service_included:
-                total_byte = self.port.byte_size + self.port.busy_packet_size
+                total_byte = self.port.byte_size
                 total = len(self.port.store.items) + self.port.busy
             else:
-                total_byte = self.port.byte_size
+                total_byte = self.port.byte_size - self.port.busy_packet_size
                 total = len(self.port.store.items)
 
             self._sizes.append(total)
